@@ -4,7 +4,7 @@ import json
 
 CLAIMED = {
  "C01": dict(engine="E1+E3", technique="exhaustive exploration of the SAT-oracle choice tree (stateless, deviation-bounded) over all small frameworks",
-   text="Every execution of the real single-extension procedures on every framework with <=3 arguments (x5 presentations, every selectable encoder) under EVERY sequence of models a SAT backend may return (complete choice tree of the ChoiceSat oracle), plus the structured family S and (thorough) all 4-argument frameworks under a deviation bound; each leaf judged against a brute-force reference. Bounded exhaustive: nothing sampled.",
+   text="Every execution of the real single-extension procedures on every framework with <=3 arguments (x5 presentations, every selectable encoder) under EVERY sequence of models a SAT backend may return (complete choice tree of the ChoiceSat oracle), plus the structured family S, sparse 5-argument classes and all isomorphism classes of 4-argument frameworks under a deviation bound (thorough: all 4-argument frameworks with D<=1 and the complete tree on every class); each leaf judged against a brute-force reference. Bounded exhaustive: nothing sampled.",
    note="trusted: reference semantics by subset enumeration (self-checked), harness DPLL (self-checked against truth tables), Assignment fabrication through CadicalSolver unit clauses; bound: n<=3 complete, n=4 D<=1, S D<=1/2", ref="4 C01, 2.1, 2.3"),
  "C02": dict(engine="E1+E3", technique="exhaustive exploration of the SAT-oracle choice tree over all small frameworks x arguments",
    text="Credulous statuses of every solver the CLI dispatches to, for every argument of every framework with <=3 arguments (x5 presentations x encoders x certificate flag) on every leaf of the complete oracle choice tree, plus S and (thorough) U(4) deviation-bounded, judged against exists-over-reference-extensions.",
@@ -28,16 +28,16 @@ CLAIMED = {
    text="For every framework with <=3 arguments (and S on the default path; thorough: U(4) default path), every problem, encoder, argument and certificate flag, and every node of the complete oracle choice tree, one extra execution in which that SAT call answers Unknown: the query must unwind and produce no status, certificate or extension. Same for the dynamic solvers over all depth-5 histories ending in a query. Vacuity guard: all unwrap_model call sites of the library are shown reached (backtraces). Process-level failure kinds through the CLI are part of the same check.",
    note="a panic is the accepted way to abort; fault budget 1 per execution", ref="4 C17"),
  "C18": dict(engine="E1 counting oracle", technique="worst case over the complete oracle choice tree against the per-component bound",
-   text="For every connected framework with <=3 arguments (complete choice tree), all U(<=2)+U(<=2) unions (sum of component bounds), connected members of S (D<=1/2) and thorough connected U(4) (D<=1): the maximum number of SAT calls over ALL oracle behaviours is compared with the property's bound computed from the reference model; a counting oracle aborts at bound+2 so divergence is a finite counter-example; no candidate handed twice (PR) / more than twice (ID) to one solver object.",
+   text="For every connected framework with <=3 arguments (complete choice tree), all U(<=2)+U(<=2) unions (sum of component bounds), connected members of S (D<=1/2) and thorough connected U(4) (D<=1): the maximum number of SAT calls over ALL oracle behaviours is compared with the property's bound computed from the reference model; a counting oracle aborts at bound+2 so divergence is a finite counter-example; no candidate handed twice (PR) / more than twice (ID) to one solver object; DS-PR also on the admissibility encoder; the dynamic preferred solver on every connected framework with <=3 arguments.",
    note="bound formulas are the property's own; disconnected frameworks only checked against the implied sum", ref="4 C18"),
  "C10": dict(engine="E3 + all-SAT", technique="exhaustive enumeration of all models of every generated CNF over all small frameworks",
-   text="For every labelled digraph with <=4 arguments, sparse 5-argument iso-classes and a hybrid-threshold family (both sides of the switch observed), and every public encoder (7 constructors + the 2 default factories) x {plain, range}: the CNF is captured by a recording solver and ALL its models are enumerated by the harness all-SAT; projected model set = reference family (both inclusions), range soundness/completeness, variable layout, assignment_to_extension on every model; encoder objects re-used across frameworks.",
+   text="For every labelled digraph with <=4 arguments, sparse 5-argument iso-classes and a hybrid-threshold family (both sides of the switch observed), every public encoder (7 constructors + the 2 default factories) x {plain, range} x {attacks once, repeated through the ICCMA reader}: the CNF is captured by a recording solver and ALL its models are enumerated by the harness all-SAT; projected model set = reference family (both inclusions), range soundness/completeness, variable layout, assignment_to_extension on every model; encoder objects re-used across frameworks.",
    note="trusted: harness all-SAT (self-checked), reference families; compact ids only, as the property states", ref="4 C10"),
  "C12": dict(engine="E2 stateful BFS", technique="explicit-state BFS over update histories with deduplication on the full concrete state",
    text="Stateful breadth-first exploration of AAFramework<usize> and AAFramework<String> over 2 labels (depth 11/13) and 3 labels (depth 8/9), from three constructors, every operand combination in every state; every observable compared with a set-based reference after EVERY step of every replay; rejected / redundant updates must leave the concrete state byte-identical.",
    note="identical concrete states have identical futures (no abstraction in the dedup key); depth-bounded because ids grow", ref="4 C12"),
  "C13": dict(engine="E3", technique="exhaustive small-scope enumeration of input byte strings with a three-zone oracle",
-   text="70 M inputs per run: all token strings (<=6/7 tokens), all line sequences (<=5/6 lines, with/without final newline), every single byte/token/line edit of a 12-file corpus, all byte strings of length <=2 (and 3 over 40 bytes), every well-formed file of U(<=3) in a layout menu, for both readers; no panic anywhere, strict-grammar files accepted faithfully (labels, ids, order, attacks), the ill-formedness classes the property lists rejected, read_arg_from_str probed.",
+   text="109 M inputs per quick run (3 G thorough): all token strings (<=6/7 tokens), all line sequences (<=5/6 lines, with/without final newline), every single byte/token/line edit of a 12-file corpus, all byte strings of length <=2 (and 3 over 40 bytes), every well-formed file of U(<=3) in a layout menu, for both readers; no panic anywhere, strict-grammar files accepted faithfully (labels, ids, order, attacks), the ill-formedness classes the property lists rejected, files with an undecodable line either rejected or read without dropping any well-formed declaration, read_arg_from_str probed.",
    note="the harness zone classifier is the specification; CRLF, irregular spacing, duplicate declarations, exotic number spellings are unspecified on purpose", ref="4 C13, 6"),
  "C14": dict(engine="E2+E3", technique="explicit-state exploration of framework states, each written and read back",
    text="Every unique concrete state of AAFramework<String> reached by the store exploration over three universes of valid Aspartix identifiers is written by AspartixWriter and read back (same labels, order, attack set; output in the strict grammar); every ordered selection of <=3 arguments through both ResponseWriters is byte-compared with the answer grammar and parsed back; statuses byte-exact.",
@@ -49,16 +49,16 @@ CLAIMED = {
    text="(1) every DIMACS instance written by static and dynamic solvers on the small universe is parsed strictly by the stand-in program; (2) every reply of <=3 (thorough 4) lines over a 17-line alphabet is interpreted and compared with a strict output-format parser; (3) models/extsat.pml: all interleavings of parent, writer thread and child over two bounded pipes for every scenario (6 child behaviours x instance x reply sizes), explored by spin for both parent orders; the 72-scenario grid is replayed on the real ExternalSatSolver under a watchdog (reply sizes around the real pipe capacity) and compared with the model of the required order; parent syscall order validated with strace.",
    note="the OS scheduler is not controlled on the real code; interleaving coverage is on the model, binding is by outcome table + syscall order", ref="2.4, 4 C16"),
  "C19": dict(engine="E3", technique="exhaustive small-scope enumeration against all complete extensions",
-   text="EquivalencyComputer on every labelled digraph with <=4 arguments and sparse 5-argument iso-classes, compact and duplicate-attack presentation: every pair of merged arguments compared on ALL complete extensions; partition, totality, inverse mappings, reduced labels.",
+   text="EquivalencyComputer on every labelled digraph with <=4 arguments and all 7.1 M labelled 5-argument digraphs with <=10 attacks (thorough: all 33.5 M), in compact, duplicate-attack and reversed-insertion-order presentation: every pair of merged arguments compared on ALL complete extensions; partition, totality, inverse mappings, reduced labels.",
    note="soundness of merging only; nothing demanded about coarseness", ref="4 C19"),
  "C05": dict(engine="E5 process sweep", technique="exhaustive enumeration of command-line invocations as real processes, judged by the reference model",
-   text="Every (instance file, problem, argument, option configuration) of a finite product is run as a real process of crustabri solve and crustabri_iccma23: thorough = U(<=2) x 21 problems x arguments x 3 reader settings x 4 encodings x certificate x logging, all 104 classes of U(3) and S with a reduced product (~85 k processes); quick = the same product on <=1 argument, reduced on 2 arguments, minimal on 6 three-argument classes (~6 k processes). stdout parsed with the answer grammar and judged semantically; 296 malformed invocations of 40 classes must exit non-zero without any answer line; the --problems listing must be exactly the 21 accepted problems (three spellings).",
+   text="Every (instance file, problem, argument, option configuration) of a finite product is run as a real process of crustabri solve and crustabri_iccma23: thorough = U(<=2) x 21 problems x arguments x 3 reader settings x 4 encodings x certificate x logging, all 104 classes of U(3) and S with a reduced product (~85 k processes); quick = the same product on <=1 argument, reduced on 2 arguments, minimal on 6 three-argument classes, chains and 2 members of S, each also through --external-sat-solver with a stand-in backend reporting the smallest / largest model (~7.6 k processes). stdout parsed with the answer grammar and judged semantically; 296 malformed invocations of 40 classes must exit non-zero without any answer line; the --problems listing must be exactly the 21 accepted problems (three spellings).",
    note="each process costs ~65 ms (the binaries scan /proc at start-up), which bounds the quick tier", ref="4 C05, 2.5"),
  "C06": dict(engine="E1+E2+E5", technique="exhaustive configuration matrix over the oracle choice tree + bounded exploration of query sequences on one solver object",
-   text="(a) for every framework with <=3 arguments, problem and argument, the statuses of ALL cells {encoders} x {CaDiCaL, every leaf of the complete oracle choice tree} x {certificate flag} must coincide (no reference), external-process cells judged against the reference; (b) every sequence of <=3 queries (U(<=2)) / 2 queries (U(3), S) on ONE solver object per (solver type, encoder): same status as a fresh object, valid answer, framework state byte-identical afterwards.",
+   text="(a) for every framework with <=3 arguments (plus duplicate-attack presentations and the hybrid-threshold members of S), problem and argument, the statuses of ALL cells {encoders} x {CaDiCaL, every leaf of the complete oracle choice tree} x {certificate flag} must coincide (no reference), external-process cells judged against the reference; (b) every sequence of <=3 queries (U(<=2)) / 2 queries (U(3), S) on ONE solver object per (solver type, encoder): same status as a fresh object, valid answer, framework state byte-identical afterwards.",
    note="same trusted base as C01; sequences of length 3 on U(3) only in thorough", ref="4 C06"),
  "C11": dict(engine="E3 (small scope) + finite grid", technique="exhaustive enumeration of presentations of all small frameworks; complete finite grid of large structured frameworks with reference-free oracles",
-   text="Small scope: every framework with <=3 arguments in every argument permutation x attack-line order x duplication pattern x reader, and united with 8 companions in 3 placements; every sparse 4-argument class under all 24 permutations; hybrid-threshold frameworks united with one another under every encoder; all judged by the reference and the locality rule. Large scope (20-300 arguments, no reference possible): 10 structured families x sizes x 15 presentations + 3 unions; statuses must equal the identity presentation's, cross-semantics consistency rules must hold, every returned set is verified directly.",
+   text="Small scope: every framework with <=3 arguments in every argument permutation x attack-line order x duplication pattern x reader, and united with 8 companions in 3 placements; every sparse 4-argument class under all 24 permutations; sparse 5-argument classes without stable extension under all 120 permutations for the range-based semantics; hybrid-threshold frameworks united with one another under every encoder (returned sets verified per component); all judged by the reference and the locality rule. Large scope (20-300 arguments, no reference possible): 10 structured families x sizes x 15 presentations + 3 unions; statuses must equal the identity presentation's, cross-semantics consistency rules must hold, every returned set is verified directly.",
    note="the universal claim over all large frameworks is outside any exhaustive bound: decided are the complete small scope and the complete finite grid (CaDiCaL only on the grid)", ref="4 C11, 8"),
 }
 
